@@ -15,6 +15,23 @@ use std::path::{Path, PathBuf};
 use std::process::{Command, Stdio};
 use std::sync::Mutex;
 
+// The in-process reference `generate()` runs under fixed hash keys on its own thread, so that the
+// harness' own verdicts never depend on the kernel's randomness (exact replay even when the code
+// generator under test has become seed-dependent).
+simcore::define_hash_key_seam!();
+
+fn reference_generate(source: &str) -> Option<String> {
+    reference_generate_with(source, [0x42; 16])
+}
+
+fn reference_generate_with(source: &str, keys: [u8; 16]) -> Option<String> {
+    let source = source.to_string();
+    with_hash_keys(keys, move || {
+        let ts: proc_macro2::TokenStream = source.parse().ok()?;
+        catch(|| logos_codegen::generate(ts).to_string()).ok()
+    })
+}
+
 // ---------------------------------------------------------------------------------------------
 // Steps
 // ---------------------------------------------------------------------------------------------
@@ -152,6 +169,10 @@ impl Stats {
 // ---------------------------------------------------------------------------------------------
 
 pub struct World {
+    /// K5 (content) is part of C17 only; the process leg of C16 compares outputs across hash seeds
+    check_content: bool,
+    /// enum texts for which K5-impl could not be decided because generate() is itself seed-dependent
+    undecidable: std::sync::atomic::AtomicU64,
     cli: PathBuf,
     shim: PathBuf,
     stub_dir: PathBuf,
@@ -205,7 +226,10 @@ impl World {
         if let Some(v) = self.expected.lock().unwrap().get(&key) {
             return v.clone();
         }
-        let dir = self.simfs.join(format!("ref-{}-{:016x}", std::process::id(), key));
+        // unique per call: two workers may need the same enum text at the same time
+        static REF_SERIAL: std::sync::atomic::AtomicU64 = std::sync::atomic::AtomicU64::new(0);
+        let serial = REF_SERIAL.fetch_add(1, std::sync::atomic::Ordering::Relaxed);
+        let dir = self.simfs.join(format!("ref-{}-{:016x}-{}", std::process::id(), key, serial));
         let _ = std::fs::create_dir_all(&dir);
         std::fs::write(dir.join("in.rs"), source).expect("write in.rs");
         let inv = self.invoke(&dir, &["in.rs"], &Plan { hash_seed: FIXED_SEED.into(), rules: vec![], rustfmt: "pass".into() });
@@ -225,6 +249,9 @@ impl World {
 
     /// K5: the CLI's output for `source` is (reference stripped enum) ++ (implementation generate() gives), and valid Rust.
     fn content_verdict(&self, source: &str) -> Option<(&'static str, String)> {
+        if !self.check_content {
+            return None;
+        }
         let key = fnv1a(source.as_bytes());
         if let Some(v) = self.content.lock().unwrap().get(&key) {
             return v.clone();
@@ -251,13 +278,20 @@ impl World {
                 return Some(("K5-enum", format!("stripped enum differs from the input enum minus logos/token/regex attributes and the Logos derive: output has `{}` where `{}` is expected", cut(&got_enum), cut(&want_enum))));
             }
             let rest: String = items.map(|i| i.to_token_stream().to_string()).collect::<Vec<_>>().join(" ");
-            let ts: proc_macro2::TokenStream = source.parse().ok()?;
-            let gen = match catch(|| logos_codegen::generate(ts).to_string()) { Ok(g) => g, Err(_) => return None };
+            let gen = reference_generate(source)?;
             let want_rest: String = match syn::parse_file(&gen) {
                 Ok(f) => f.items.into_iter().map(|i| i.to_token_stream().to_string()).collect::<Vec<_>>().join(" "),
                 Err(e) => return Some(("K5-parse", format!("generate() output is not valid Rust: {e}"))),
             };
             if rest != want_rest {
+                // "The implementation the derive would generate" is only well defined while code generation is
+                // deterministic. If generate() itself varies with the hash keys, that is a C16 violation (reported
+                // by the C16 check); the CLI printing one of the possible outputs does not break C17.
+                let variants: Vec<Option<String>> = (1u8..=6).map(|k| reference_generate_with(source, [k.wrapping_mul(37); 16])).collect();
+                if variants.iter().any(|v| v.as_deref() != Some(gen.as_str())) {
+                    self.undecidable.fetch_add(1, std::sync::atomic::Ordering::Relaxed);
+                    return None;
+                }
                 return Some(("K5-impl", "the implementation part of the output differs from what generate() produces for the same enum".to_string()));
             }
             None
@@ -661,7 +695,9 @@ fn main() {
     std::fs::create_dir_all(&stub_dir).expect("simfs");
     std::fs::create_dir_all(&empty_dir).expect("simfs");
     std::fs::copy(&stub, stub_dir.join("rustfmt")).expect("install rustfmt stub");
-    let world = World { cli, shim, stub_dir: stub_dir.clone(), empty_dir: empty_dir.clone(), simfs: simfs.clone(), expected: Mutex::new(BTreeMap::new()), content: Mutex::new(BTreeMap::new()) };
+    // initialise logos-codegen's lazy statics on a throw-away thread (see hash-sim::warm_up)
+    let _ = reference_generate(r#"#[derive(Logos)] #[logos(subpattern x = "a.")] enum W { #[regex("(?&x)+")] A, #[regex(".", priority = 0)] B }"#);
+    let world = World { check_content: mode != "c16", undecidable: std::sync::atomic::AtomicU64::new(0), cli, shim, stub_dir: stub_dir.clone(), empty_dir: empty_dir.clone(), simfs: simfs.clone(), expected: Mutex::new(BTreeMap::new()), content: Mutex::new(BTreeMap::new()) };
     let cleanup = || { let _ = std::fs::remove_dir_all(&stub_dir); let _ = std::fs::remove_dir_all(&empty_dir); };
 
     if let Some(path) = args.get("replay") {
@@ -740,6 +776,7 @@ fn main() {
     result["tag"] = json!(tag);
     result["definitions"] = json!(defs.len());
     result["distinct_enum_texts_processed"] = json!(world.expected.lock().unwrap().len());
+    result["k5_impl_undecidable_codegen_is_seed_dependent"] = json!(world.undecidable.load(std::sync::atomic::Ordering::Relaxed));
     result["failures"] = json!(failures_json);
     result["failure_classes"] = json!(batch.failures.len());
     cleanup();
